@@ -35,8 +35,10 @@ fn rand_triang<R: Ent>(rng: &mut StdRng, n: usize, upper: bool, dens: f64, st: &
         else if (upper && i < j) || (!upper && i > j) { if rng.gen_bool(dens) { d[i][j] = R::rnd(rng, 3); } }
     } }
     let pat: Vec<Vec<bool>> = (0..n).map(|_| (0..n).map(|_| rng.gen_bool(0.15)).collect()).collect();
-    // explicit zeros only inside the triangle (a stored zero outside would still be a triangular matrix, keep it inside)
-    sp_from_dense(&d, n, n, &|i, j| pat[i][j] && ((upper && i < j) || (!upper && i > j)))
+    // explicit zeros: inside the triangle only in half of the cases, anywhere off the diagonal in the other half (a stored zero on the
+    // far side of the diagonal is still a triangular matrix - `is_triang` looks at values - and arises from sparse arithmetic)
+    let anywhere = rng.gen_bool(0.5);
+    sp_from_dense(&d, n, n, &|i, j| pat[i][j] && i != j && (anywhere || (upper && i < j) || (!upper && i > j)))
 }
 
 fn tname(t: TriangularType) -> &'static str { if t.is_upper() { "upper" } else { "lower" } }
